@@ -1463,6 +1463,13 @@ class World(object):
                     exact = (tuple(R.shape), R.ravel().tolist())
                 except Exception:
                     exact = None
+        extra_kw = {}
+        if f in ('max', 'min') and op.get('initial') is not None:
+            # NumPy's `initial=` keyword of the reductions, forwarded by the library (it is compared with
+            # the raw codes): what the result is worth is not modelled, only that it is well-formed
+            extra_kw['initial'] = int(op['initial'])
+            exact = None
+            self.bump('reduce_with_initial')
         st.store = Store('dest' if st.dest is not None else 'new', vals=exact, route='reduce',
                          prop=prop, judge_cb=False, arith=f, judge_flags=exact is not None)
         st.extra['arith_route'] = route
@@ -1497,9 +1504,9 @@ class World(object):
         else:
             fname = {'max': 'fxp_max', 'min': 'fxp_min'}.get(f, f)
             if route == 'method':
-                x = getattr(ao, f)(axis=axis)
+                x = getattr(ao, f)(axis=axis, **extra_kw)
             elif route == 'np':
-                x = npf(ao, axis=axis)
+                x = npf(ao, axis=axis, **extra_kw)
             elif f == 'sum' and op.get('legacy'):
                 # the older public spelling of the same reduction: fxp_sum(x, sizes=, axis=, dtype=, out=)
                 kw2 = {}
@@ -1512,7 +1519,7 @@ class World(object):
                 self.bump('reduce_fxp_sum')
                 x = fxf.fxp_sum(ao, axis=axis, **kw2)
             else:
-                x = getattr(fxf, fname)(ao, axis=axis, **kwargs)
+                x = getattr(fxf, fname)(ao, axis=axis, **dict(kwargs, **extra_kw))
         k = self.finish_new(st, x, origin='reduce')
         self.register_written(st)
 
@@ -1859,7 +1866,14 @@ class World(object):
         if sindex is not None:
             so = so[sindex]
             st.transients.append(so)
-        self.obj(d)[index] = so
+        via = op.get('via')
+        if via == 'equal':
+            self.bump('indexed_conversion_by_equal')
+            self.obj(d).equal(so, index=index)          # the rarely used index= keyword of equal()
+        elif via == 'set_val':
+            self.obj(d).set_val(so, index=index)
+        else:
+            self.obj(d)[index] = so
 
     def op_resize(self, st):
         op = st.op
